@@ -25,7 +25,7 @@ out = ["# Seeded changes (written by sub-agents that saw only the property text 
        "agents were told which ideas were already taken). The last column is what the property's own check did BEFORE the machinery was widened in "
        "response (tools/seed_base_eval.py). To run a check against a change in /repo itself: "
        "`git -C /repo apply /verif/seeded/<name>/patch.diff; /venv/bin/python check.py <ID>; git -C /repo checkout -- .`\n",
-       "| change | breaks | needs to manifest | demo confirmed | stable tests broken | detected by (quick, current checks) | not detected by | own check at the start of the session in which the change was written (rounds 3/4: /verif commit bf5e198; rounds 1/2: first evaluation) |",
+       "| change | breaks | needs to manifest | demo confirmed | stable tests broken | detected by (quick, current checks) | not detected by | own check at the start of the session in which the change was written (rounds 3-5: /verif commit bf5e198; rounds 1/2: first evaluation) |",
        "|---|---|---|---|---|---|---|---|"]
 for r in rows:
     out.append("| " + " | ".join(str(x) for x in r) + " |")
